@@ -1,0 +1,115 @@
+//! Scheduling points for verification (cargo feature `verif`). Thin stand-ins for the shared-state types used by
+//! the operators; every access first calls the process-global hook, then delegates to the real type.
+use std::sync::{
+    atomic::{self, Ordering},
+    Arc, RwLock,
+};
+
+pub type Hook = dyn Fn(&'static str) + Send + Sync;
+static HOOK: RwLock<Option<Arc<Hook>>> = RwLock::new(None);
+
+pub fn set_hook(hook: Option<Arc<Hook>>) {
+    *HOOK.write().unwrap() = hook;
+}
+
+#[inline]
+pub fn point(kind: &'static str) {
+    let hook = HOOK.read().unwrap().clone();
+    if let Some(hook) = hook {
+        hook(kind);
+    }
+}
+
+#[derive(Debug, Default)]
+pub struct AtomicUsize(atomic::AtomicUsize);
+impl AtomicUsize {
+    pub fn new(v: usize) -> Self {
+        Self(atomic::AtomicUsize::new(v))
+    }
+    pub fn load(&self, o: Ordering) -> usize {
+        point("usize.load");
+        self.0.load(o)
+    }
+    pub fn store(&self, v: usize, o: Ordering) {
+        point("usize.store");
+        self.0.store(v, o)
+    }
+    pub fn fetch_add(&self, v: usize, o: Ordering) -> usize {
+        point("usize.fetch_add");
+        self.0.fetch_add(v, o)
+    }
+    pub fn fetch_sub(&self, v: usize, o: Ordering) -> usize {
+        point("usize.fetch_sub");
+        self.0.fetch_sub(v, o)
+    }
+    pub fn fetch_update<F: FnMut(usize) -> Option<usize>>(&self, s: Ordering, f: Ordering, g: F) -> Result<usize, usize> {
+        point("usize.fetch_update");
+        self.0.fetch_update(s, f, g)
+    }
+}
+
+#[derive(Debug, Default)]
+pub struct AtomicBool(atomic::AtomicBool);
+impl AtomicBool {
+    pub fn new(v: bool) -> Self {
+        Self(atomic::AtomicBool::new(v))
+    }
+    pub fn load(&self, o: Ordering) -> bool {
+        point("bool.load");
+        self.0.load(o)
+    }
+    pub fn store(&self, v: bool, o: Ordering) {
+        point("bool.store");
+        self.0.store(v, o)
+    }
+}
+
+pub struct ArcSwapOption<T>(arc_swap::ArcSwapOption<T>);
+impl<T> Default for ArcSwapOption<T> {
+    fn default() -> Self {
+        Self(arc_swap::ArcSwapOption::from(None))
+    }
+}
+impl<T> From<Option<Arc<T>>> for ArcSwapOption<T> {
+    fn from(v: Option<Arc<T>>) -> Self {
+        Self(arc_swap::ArcSwapOption::from(v))
+    }
+}
+impl<T> ArcSwapOption<T> {
+    pub fn load(&self) -> arc_swap::Guard<Option<Arc<T>>> {
+        point("slot.load");
+        self.0.load()
+    }
+    pub fn store(&self, v: Option<Arc<T>>) {
+        point("slot.store");
+        self.0.store(v)
+    }
+}
+
+pub struct ArcSwap<T>(arc_swap::ArcSwap<T>);
+impl<T: Default> Default for ArcSwap<T> {
+    fn default() -> Self {
+        Self(arc_swap::ArcSwap::from_pointee(T::default()))
+    }
+}
+impl<T> ArcSwap<T> {
+    pub fn from_pointee(v: T) -> Self {
+        Self(arc_swap::ArcSwap::from_pointee(v))
+    }
+    pub fn load(&self) -> arc_swap::Guard<Arc<T>> {
+        point("cell.load");
+        self.0.load()
+    }
+    pub fn store(&self, v: Arc<T>) {
+        point("cell.store");
+        self.0.store(v)
+    }
+    pub fn rcu<R, F>(&self, f: F) -> Arc<T>
+    where
+        F: FnMut(&Arc<T>) -> R,
+        R: Into<Arc<T>>,
+    {
+        point("cell.rcu");
+        self.0.rcu(f)
+    }
+}
